@@ -26,7 +26,12 @@ D_NO_TRAIL = r"(?:.*\S)?"             # no trailing whitespace
 
 
 def compiled_pattern(ctx, name):
+    return compiled_pattern_in(ctx, CP, name)
+
+
+def compiled_pattern_in(ctx, modname, name):
     m = ctx.model
+    CP = modname
     mod = m.modules.get(CP)
     if mod is None:
         raise AnalysisError("anchor vanished: module " + CP)
